@@ -360,7 +360,7 @@ Inductive ok (k : bool) : value -> Prop :=
     mem c visit_class_names = true ->
     Forall (fun p => ok k (snd p)) fs ->
     (is_setof c = true ->
-     forall l, field "type_list" (visited_children fs) = Some (VTup l) -> flat l /\ eq_separated l) ->
+     forall l, In ("type_list", VTup l) (visited_children fs) -> flat l /\ eq_separated l) ->
     (k = true ->
      forall n l, In (n, VTup l) (visited_children fs) ->
                  sorts c (preserve_constants (visited_children fs)) n = true -> key_separated l) ->
@@ -380,10 +380,12 @@ Fixpoint okb (k : bool) (v : value) {struct v} : bool :=
       if mem c visit_class_names then
         forallb (fun p => okb k (snd p)) fs
         && (if is_setof c
-            then match field "type_list" (visited_children fs) with
-                 | Some (VTup l) => flatb l && eq_separatedb l
-                 | _ => true
-                 end
+            then forallb (fun p => if fst p =? "type_list"
+                                   then match snd p with
+                                        | VTup l => flatb l && eq_separatedb l
+                                        | _ => true
+                                        end
+                                   else true) (visited_children fs)
             else true)
         && (if k
             then forallb (fun p => match snd p with
@@ -552,3 +554,45 @@ Definition group_all (es : list error) : groups :=
 (* ErrorLog.unique_sorted_errors: sum(unique_errors.values(), []) *)
 Definition unique_sorted_errors (es : list error) : list error :=
   List.concat (map snd (group_all (sorted_errors es))).
+
+(* The same algorithm over an arbitrary carrier [A] of which only the projection [pe] to the eight
+   modelled fields is consulted.  A real Error object has more state (identity, severity, source
+   text, keyword, bad_call, opcode name, end line/column); [errors_function_of_sequence] shows that
+   none of it can influence which errors are reported or in which order.  The harness runs this
+   version on (index, error) pairs, so the model's answer is a list of indices into the log. *)
+Section OnCarrier.
+  Context {A : Type} (pe : A -> error).
+
+  Definition sorted_on (xs : list A) : list A := sort (fun a b => err_lt (pe a) (pe b)) xs.
+
+  Fixpoint scan_on (cur : A) (prevs kept_rev : list A) : bool * list A :=
+    match prevs with
+    | [] => (false, rev kept_rev)
+    | p :: rest =>
+        match compare_tb (e_tb (pe cur)) (e_tb (pe p)) with
+        | None => scan_on cur rest (p :: kept_rev)
+        | Some c => if (c <? 0)%Z
+                    then scan_on cur rest kept_rev
+                    else (true, (rev kept_rev ++ p :: rest)%list)
+        end
+    end.
+
+  Definition add_to_group_on (cur : A) (errs : list A) : list A :=
+    let '(broke, errs') := scan_on cur errs [] in
+    if broke then errs'
+    else if (List.length errs' <? MAX_TRACEBACKS)%nat then (errs' ++ [cur])%list else errs'.
+
+  Fixpoint insert_group_on (cur : A)
+           (gs : list ((position * string * option string * string) * list A)) :=
+    match gs with
+    | [] => [(urepr (pe cur), [cur])]
+    | (k, g) :: t => if urepr_eqb k (urepr (pe cur)) then (k, add_to_group_on cur g) :: t
+                     else (k, g) :: insert_group_on cur t
+    end.
+
+  Definition group_all_on (xs : list A) :=
+    fold_left (fun gs e => insert_group_on e gs) xs [].
+
+  Definition unique_sorted_on (xs : list A) : list A :=
+    List.concat (map snd (group_all_on (sorted_on xs))).
+End OnCarrier.
